@@ -268,7 +268,11 @@ class Normalizer:
         if hb is None or hb.span.get("f") != cb.span.get("f"):
             return True                      # cross-file call: a module's API, not an extracted helper
         if not self.effectful(callee):
-            return True                      # pure helpers are handled at expression level
+            # pure helpers are handled at expression level - except guard helpers, whose result carries no data
+            # (`fn ensure(..) -> Result<()>`, `fn ok(..) -> bool`): they exist for their control flow only
+            if re.match(r"^(bool|std::result::Result<\(\), .*>|std::option::Option<\(\)>)$", cb.ret_ty or ""):
+                return False
+            return True
         return False
 
     # -- normal form of one body (memoised)
